@@ -28,6 +28,9 @@ Inductive case :=
 | KFPrint (f : bytes) (ut : utab) (qt : qtab) (txt : option bytes) (back : option bytes)
 (* field.NewFieldsFromKVString(tag.MapToSet(pairs).Line()) = obs: what the pipe worker derives from a source tag line *)
 | KProv (ord : kvmap) (ut : utab) (qt : qtab) (obs : option bytes)
+(* in-process server: one event written with tag text tg, write-level field text wf and event-level field text ef;
+   acked = the write was accepted; obs = (Tags, Fields) of the event as a query returns it *)
+| KE2E (tg wf ef : bytes) (ut : utab) (qt : qtab) (acked : bool) (obs : option (bytes * bytes))
 (* strconv.Quote(v) = q, strconv.Unquote(q) = uq *)
 | KQuote (v q : bytes) (uq : option bytes)
 (* strconv.Unquote(s) = r *)
@@ -63,6 +66,17 @@ Definition check (c : case) : bool :=
       let m := map_of_pairs ord in
       option_eqb obytes_eqb (out_opt (fields_of_kv (tbl_unquote ut) (line_ord (tbl_quote qt) ord))) (Some obs) &&
       implb (tag_safe m && forallb (prov_pair_ok (tbl_quote qt)) m) (obytes_eqb obs (Some (enc_fields (flat m))))
+  | KE2E tg wf ef ut qt acked obs =>
+      match to_map (tbl_unquote ut) tg, fields_of_kv (tbl_unquote ut) wf with
+      | Ok (kv :: m), Ok f1 =>
+          let f2 := match fields_of_kv (tbl_unquote ut) ef with Ok f => f | _ => [] end in   (* field.Parse drops errors *)
+          acked &&
+          match obs, as_kv (tbl_quote qt) (f1 ++ f2) with
+          | Some (tl, fl), Ok t => bytes_eqb tl (line (tbl_quote qt) (kv :: m)) && bytes_eqb fl t
+          | _, _ => false
+          end
+      | _, _ => negb acked
+      end
   | KQuote v q uq => quote_ok v q uq && quote_fact_ok v q
   | KUnquote s r => unquote_fact_ok s r
   end.
